@@ -37,6 +37,26 @@ elif sys.argv[1] == "--result":
     m["check_results"].append({"property": prop, "tier": tier, "exit": ex, "signature": sig})
     json.dump(m, open(mp, "w"), indent=1)
     table()
+elif sys.argv[1] == "--provisional":
+    for d in sys.argv[2:]:
+        d = d.rstrip("/")
+        sid = os.path.basename(d)
+        dst = os.path.join(SEEDED, sid)
+        if os.path.exists(os.path.join(dst, "meta.json")) or not os.path.exists(os.path.join(d, "meta.json")):
+            continue
+        src = json.load(open(os.path.join(d, "meta.json")))
+        os.makedirs(dst, exist_ok=True)
+        for f in ("patch.diff", "demo.diff"):
+            if os.path.exists(os.path.join(d, f)):
+                shutil.copy(os.path.join(d, f), dst)
+        meta = {"id": sid, "property": src["property"], "summary": src.get("summary", ""),
+                "breaks_because": src.get("breaks_because", ""), "needs_to_manifest": src.get("needs_to_manifest", ""),
+                "files_changed": src.get("files_changed", []),
+                "author": "independent sub-agent given only the property text and a scratch worktree",
+                "confirmed_by_lead": {"status": "pending: the lead's own confirmation run has not finished yet"},
+                "check_results": []}
+        json.dump(meta, open(os.path.join(dst, "meta.json"), "w"), indent=1)
+    table()
 else:
     d = sys.argv[1].rstrip("/")
     c = json.load(open(os.path.join(d, "confirm.json")))
